@@ -173,8 +173,8 @@ def check(chk: Check) -> None:
             for other in lm.order:
                 if other != n and LM.first_chars_can(lm.rules[other].parsed, ch):
                     cproblems.append('rule %s also matches at %r' % (other, ch))
-        if r.newline:
-            cproblems.append('the silent rule %s can run across a line break' % n)
+        if r.newline and LM.last_char_can(r.parsed, '\n'):
+            cproblems.append('the silent rule %s can swallow the line break that ends it' % n)
     chk.require(bool(silent) and not cproblems, R2, 'silent rules (comments)', lm.spec.module.rel,
                 '; '.join(cproblems) or ('%s emit no token and own their start character' % ', '.join(silent) if silent else 'no comment rule found'))
     # strings: tried before the identifier rule
